@@ -322,6 +322,23 @@ def oracle(ctx: Ctx, budget: str):
         if not (np.array_equal(g.points, sp) and np.array_equal(g.weights, sw)):
             ctx.fail("oracle", "angular.AngularGrid:cache", f"AngularGrid(degree={d}, method={m}) no longer returns the shipped data after a history with in-place edits of previously returned arrays",
                      witness={"method": m, "degree": d}, snippet=SNIP.format(m=m, d=d))
+        # a molecular grid built on top (two atoms, Becke weights): its arrays after the history must
+        # equal those of the same grid built before any edit happened in a pristine cache state
+        if ctx.rng.random() < 0.5:
+            mol = importlib.import_module("grid.molgrid")
+            bk = importlib.import_module("grid.becke")
+            def _mol():
+                ats = [atg.AtomGrid(rg, degrees=[d], method=m, center=np.array(c)) for c in ([0.0, 0.0, -0.7], [0.0, 0.0, 0.7])]
+                return mol.MolGrid(np.array([1, 1]), ats, bk.BeckeWeights(), store=ctx.rng.random() < 0.5)
+            got_m = _mol()
+            _clear(ang)
+            ref_m = _mol()
+            ctx.count(["oracle-molgrid", m, d], nontrivial=True, tag="oracle:molgrid")
+            if not (np.array_equal(got_m.points, ref_m.points) and np.array_equal(got_m.weights, ref_m.weights)):
+                ctx.fail("oracle", "molgrid.MolGrid:angular-cache", f"MolGrid built from {m} degree {d} after a history with in-place edits differs from the one built in a pristine cache state",
+                         witness={"method": m, "degree": d}, snippet=SNIP.format(m=m, d=d))
+            for arr in (got_m.points, got_m.weights):
+                arr[...] = -3.0    # editing the molecular grid's own arrays must not reach the cache either
         a = atg.AtomGrid(rg, degrees=[d], method=m)
         if not (np.array_equal(a.points, ref_at_p) and np.array_equal(a.weights, ref_at_w)):
             ctx.fail("oracle", "atomgrid.AtomGrid:angular-cache", f"AtomGrid built from {m} degree {d} differs from the one built in a pristine process state",
